@@ -22,6 +22,13 @@ RCP<const Basic> MIntPoly::as_symbolic() const
 hash_t MIntPoly::__hash__() const
 {
     hash_t seed = SYMENGINE_MINTPOLY;
+    if (is_constant()) {
+        // equal constants hash equally whatever their variables are
+        if (not get_poly().dict_.empty())
+            hash_combine<hash_t>(seed,
+                                 mp_get_si(get_poly().dict_.begin()->second));
+        return seed;
+    }
     for (auto var : get_vars())
         hash_combine<std::string>(seed, var->__str__());
 
@@ -70,6 +77,13 @@ RCP<const Basic> MExprPoly::as_symbolic() const
 hash_t MExprPoly::__hash__() const
 {
     hash_t seed = SYMENGINE_MEXPRPOLY;
+    if (is_constant()) {
+        // equal constants hash equally whatever their variables are
+        if (not get_poly().dict_.empty())
+            hash_combine<Basic>(
+                seed, *(get_poly().dict_.begin()->second.get_basic()));
+        return seed;
+    }
     for (auto var : get_vars())
         hash_combine<std::string>(seed, var->__str__());
 
